@@ -66,6 +66,12 @@ def rule_idx_pos(ctx, cfg, F):
         for b, t in f.calls():
             nm = strip_generics(callee_name(t))
             decl = strip_generics(t.get("callee") or "")
+            if nm in ("std::vec::Vec::remove", "std::vec::Vec::swap_remove", "std::vec::Vec::insert", "std::vec::Vec::drain", "std::vec::Vec::retain", "std::vec::Vec::pop") and t["args"] \
+                    and "std::cell::RefCell::borrow_mut" in chain_calls(f, t["args"][0]) and _is_side_table_vec(t) and f.kind == "Closure" and "eserialize" in f.path:
+                n_de += 1
+                R.violate("%s:position-shifting-access" % strip_generics(f.path), "%s on the attachment table while decoding shifts the positions of the remaining attachments, but the indices in the byte stream are absolute" % nm.split("::")[-1],
+                          f.path, f.loc(b), config=cfg)
+                continue
             if (nm in ("core::slice::get_mut", "core::slice::get", "std::vec::Vec::get_mut") or decl in ("std::ops::Index::index", "std::ops::IndexMut::index_mut")) and len(t["args"]) > 1:
                 if "std::cell::RefCell::borrow_mut" not in chain_calls(f, t["args"][0]):
                     continue
@@ -839,3 +845,68 @@ def rule_buf_fresh(ctx, cfg, F):
                 R.violate("%s:stale-serialisation-buffer" % strip_generics(f.path), "the buffer handed to bincode::serialize_into is neither created in this call nor cleared on every path before use (%s): "
                           "bytes of an earlier message whose send failed would be transmitted in front of the next one" % ", ".join(sorted(set(why)))[:160], f.path, f.loc(b), config=cfg)
     R.count("serialise_calls[%s]" % cfg, n)
+
+
+def rule_split_classify(ctx, cfg, F):
+    R = ctx.rule("SPLIT-CLASSIFY", "every received descriptor is classified by its own is_socket() test: it becomes a channel only on that test's true edge and a region only on its false edge "
+                 "(no positional shortcut: the per-message receiver follows the regions in a fragmented message)")
+    from vlib.flow import segment_summaries
+    from rules.fd import cmsg_loads
+    g = next((x for x in F.fns.values() if any(strip_generics(callee_name(t)) == "libc::recv" for _, t in x.calls())), None)
+    if not g:
+        R.violate("anchor-missing:reassembly", "no function calls libc::recv", config=cfg)
+        return
+    tr = Tracer(g)
+    loads = cmsg_loads(F, g)
+    R.count("descriptor_loads[%s]" % cfg, len(loads))
+    for (lb, si, st) in loads:
+        fdl = st["lhs"]["l"]
+
+        def is_fd(op):
+            return any(r.kind == "local" and r.id == fdl for r in tr.roots_of_operand(op)) or op_local(op) == fdl or \
+                any(_copy_of(g, op_local(op), fdl) for _ in [0])
+
+        def edge_fact(b, s, labs):
+            for lab in labs:
+                if lab["kind"] == "callbool" and lab["callee"].endswith("::is_socket") and is_fd(lab["args"][0]):
+                    yield ("sock", lab["truth"])
+
+        def block_fact(b):
+            t = g.term(b)
+            if t["t"] == "call":
+                nm = strip_generics(callee_name(t))
+                if nm.endswith("::OsOpaqueIpcChannel::from_fd") and is_fd(t["args"][0]):
+                    yield ("made", "channel")
+                if nm.endswith("::OsIpcSharedMemory::from_fd") and is_fd(t["args"][0]):
+                    yield ("made", "region")
+        bad = None
+        n = 0
+        for facts, end in segment_summaries(g, lb, [lb], edge_fact, block_fact):
+            made = {x[1] for x in facts if x[0] == "made"}
+            sock = {x[1] for x in facts if x[0] == "sock"}
+            if not made:
+                continue
+            n += 1
+            if made == {"channel"} and sock != {True}:
+                bad = "a descriptor becomes a channel on a path that did not establish is_socket(fd) == true for it"
+            if made == {"region"} and sock != {False}:
+                bad = "a descriptor is mapped as a region on a path that did not establish is_socket(fd) == false for it"
+            if len(made) > 1:
+                bad = "a descriptor is wrapped twice on one path"
+        if bad or not n:
+            R.violate("%s:classification-not-by-own-test" % g.path, bad or "received descriptors are never wrapped", g.path, g.loc(lb, si), config=cfg)
+        else:
+            R.ok("descriptor -> channel iff is_socket(fd), region otherwise (%d wrapping paths)" % n, g.loc(lb, si), cfg)
+
+
+def _copy_of(f, l, target):
+    seen = set()
+    while l is not None and l not in seen:
+        if l == target:
+            return True
+        seen.add(l)
+        ds = [d for d in f.defs().get(l, []) if d[1] is not None and not f.is_cleanup(d[0])]
+        if len(ds) != 1 or ds[0][2]["rv"]["r"] not in ("use", "cast"):
+            return False
+        l = op_local(ds[0][2]["rv"]["a"][0])
+    return False
